@@ -9,6 +9,48 @@ def mk_parser(b):
     return b.new("GcodeParser", _src=b.opaque("parser state before parse()"))
 
 
+def line_fns():
+    import z3
+    S = z3.StringSort()
+    return {"eol": z3.Function("line.eol", S, S), "text": z3.Function("line.text", S, S),
+            "type_none": z3.Function("line.type_is_none", S, z3.BoolSort()), "type": z3.Function("line.type", S, S),
+            "gcode": z3.Function("line.gcode", S, S), "sub_none": z3.Function("line.subcode_is_none", S, z3.BoolSort()),
+            "sub": z3.Function("line.subcode", S, z3.IntSort()), "norm": z3.Function("line.normalised", S, S)}
+
+
+def set_line_fields(interp, p, src):
+    """Abstract view of a parsed line: eol / text / type / gcode / subCode are (uninterpreted) functions of the source
+    line; gcode is present exactly when the type is."""
+    from pyvc.stubs import sstr_to_z3
+    from pyvc.values import Opt
+    z = sstr_to_z3(src)
+    if z is None:
+        return
+    F = line_fns()
+    p.fields["source"] = src
+    p.fields["eol"] = F["eol"](z)
+    p.fields["text"] = F["text"](z)
+    p.fields["_type"] = Opt(F["type_none"](z), F["type"](z))
+    p.fields["_gcode"] = Opt(F["type_none"](z), F["gcode"](z))
+    p.fields["_subCode"] = Opt(F["sub_none"](z), F["sub"](z))
+
+
+@contract("GcodeParser.GcodeParser.stringify")
+def _(c):
+    def summary(f):
+        from pyvc.stubs import sstr_to_z3
+        from pyvc.values import Unsupported
+        src = f.self.fields.get("source")
+        z = sstr_to_z3(src) if src is not None else None
+        if z is None:
+            raise Unsupported("stringify on a parser whose source is not known")
+        f.interp.ctx.assumed.add("A2:stringify(includeLineNumber=False, includeComment=False, includeEol=False) is the normalised "
+                                 "command of the line (opaque function of the line; its stability is judged by C18)")
+        return line_fns()["norm"](z)
+    c.summary(summary)
+    c.use_modular()
+
+
 @contract("GcodeParser.GcodeParser.parse")
 def _(c):
     def summary(f):
@@ -21,6 +63,7 @@ def _(c):
                                  "(abstract items; the parser is checked against an RS274 reader under C19)")
         f.interp.ctx.log_write(p, "*")
         p.fields["_src"] = src
+        set_line_fields(f.interp, p, src)
         return p
     c.summary(summary)
     c.use_modular()
